@@ -145,7 +145,31 @@ def _leg_expr(case, add, counters):
     b = g.build(spec, 0, 0, case["seed"])
     if tuple(b.shape) != ii.shape:
         return 1, 0  # declared shapes are C08's
-    return probe_bijection(b, ii.shape, ii.cond_shape, ii.fwd, ii.inv, g._cls(spec), add, counters)
+    tr, nt = probe_bijection(b, ii.shape, ii.cond_shape, ii.fwd, ii.inv, g._cls(spec), add, counters)
+    if ii.cond_shape is not None and ii.fwd:
+        # the same member called from INSIDE a composite: an embedding network that hands it a condition of the wrong shape (every
+        # lattice shape but the declared one) must be rejected by the member's own check, not silently broadcast
+        import jax.numpy as jnp
+
+        import flowjax.bijections as FB
+
+        x = jnp.full(ii.shape, 0.5)
+        for ws in LATTICE:
+            if tuple(ws) == tuple(ii.cond_shape):
+                continue
+            if not (_broadcastable(ws, ii.cond_shape) or int(np.prod(ws)) == int(np.prod(ii.cond_shape)) or len(ws) <= 1):
+                continue
+            tr += 1
+            nt += 1
+            try:
+                e = FB.EmbedCondition(b, lambda c, ws=ws: jnp.full(ws, 0.3) + 0.0 * jnp.sum(c), (2,))
+                out = e.transform(x, jnp.ones(2))
+            except Exception:
+                counters["rejected"] = counters.get("rejected", 0) + 1
+                continue
+            add(f"{g._cls(spec)}|nested|accepts-wrong-condition", f"EmbedCondition({g._cls(spec)}, net -> shape {tuple(ws)}): the member (cond_shape {tuple(ii.cond_shape)}) accepted the embedded "
+                                                                   f"condition and returned shape {tuple(jnp.shape(out))}", {"wrong_shape": list(ws)})
+    return tr, nt
 
 
 def _all_subclasses(cls):
